@@ -192,27 +192,43 @@ def check_adddimension(ctx, rule='R-UNLIM'):
         ctx.violation(Finding(rule, 'pncgen.py', 'Pseudo2NetCDF.addDimension', bad,
                               'the unlimited flag of the source dimension is overridden/narrowed before the dimension is created: '
                               'an unlimited dimension can be written as a fixed one'), oid='flag source')
+    # finite case analysis: flag true x {in-memory target, disk target}.  A path is taken in a case when every condition on it that the
+    # checker's evaluator can decide (the flag, the isinstance test, names defined from them) has the polarity the case gives it;
+    # on every taken path the created dimension is unlimited: length None (disk form) or setunlimited(True / flag) on the new object
+    from .. import consteval as _ce
     nflag, badp = 0, None
-    for p in creating:
-        if p.polarity(flag) is not True:
-            continue
-        nflag += 1
-        kind = p.decided(lambda e: isinstance(e, ast.Call) and isinstance(e.func, ast.Name) and e.func.id == 'isinstance' and 'PseudoNetCDFFile' in norm(e))
-        inmem = kind[-1][1] if kind else None
-        call, cst = p.calls(attr='createDimension')[-1]
-        length = call.args[1] if len(call.args) > 1 else None
-        bound = [t.id for t in getattr(cst, 'targets', []) if isinstance(t, ast.Name)] if isinstance(cst, ast.Assign) and cst.value is call else []
-        if inmem is True:
-            sus = [c for c, st in p.calls(attr='setunlimited') if (isinstance(c.func.value, ast.Name) and c.func.value.id in bound) or isinstance(c.func.value, ast.Call)]
-            good = bool(sus) and sus[-1].args and ((isinstance(sus[-1].args[0], ast.Constant) and sus[-1].args[0].value is True) or norm(sus[-1].args[0]) == flag)
-        elif inmem is False:
-            good = isinstance(length, ast.Constant) and length.value is None
-        else:
+    for inmem in (True, False):
+        def hook(e, _inmem=inmem):
+            if isinstance(e, ast.Call) and isinstance(e.func, ast.Name) and e.func.id == 'isinstance' and 'PseudoNetCDFFile' in norm(e):
+                return _inmem
+            if isinstance(e, ast.Name) and e.id == flag:
+                return True
+            return None
+        for p in creating:
+            res = _paths.expand(p, keep=(flag,))
+            taken = True
+            for e_, x, pol in res.conds:
+                v = _ce.ev(x, {}, hook)
+                if v is not _ce.UNK and bool(v) != pol:
+                    taken = False
+            if not taken:
+                continue
+            nflag += 1
             good = False
-        if not good:
-            badp = badp or (p, cst)
+            for st, new in res.stmts:
+                for c in [c for c in walk_expr(new) if isinstance(c, ast.Call) and isinstance(c.func, ast.Attribute)]:
+                    if c.func.attr == 'createDimension' and len(c.args) > 1:
+                        lv = _ce.ev(c.args[1], {}, hook)
+                        if lv is None:
+                            good = True
+                    if c.func.attr == 'setunlimited' and c.args:
+                        av = _ce.ev(c.args[0], {}, hook)
+                        if av is True:
+                            good = True
+            if not good:
+                badp = badp or (p, (p.calls(attr='createDimension') or [(None, fn.body[-1])])[-1][1])
     if nflag and badp is None:
-        ctx.ok(rule, 'addDimension: unlimited branch', where, 'in-memory: setunlimited(True); on disk: createDimension(d, None) (%d paths)' % nflag)
+        ctx.ok(rule, 'addDimension: unlimited branch', where, 'in-memory: setunlimited(True); on disk: createDimension(d, None) (%d path/case pairs)' % nflag)
     else:
         ctx.violation(Finding(rule, 'pncgen.py', 'Pseudo2NetCDF.addDimension', badp[1] if badp else fn.body[-1],
                               'the unlimited branch does not create an unlimited dimension on every path'), oid='unlimited branch')
